@@ -15,7 +15,7 @@ from .. import common, oglib, hamlib
 from ..common import Corr, with_alarm, CaseTimeout
 from ..oglib import enc, frac
 
-RULE = ('spinless: optimized L=1..6, explicit L=4..6 (+ L=0..3: the documented assertion); spin-orbital: optimized L=1..4 (thorough 5), explicit L=2..4 (thorough 5) (+ L=1); '
+RULE = ('spinless: optimized L=1..8, explicit L=4..8 (+ L=0..3: the documented assertion); spin-orbital: optimized L=1..6, explicit L=2..6 (+ L=1) (few cases for the largest sizes); '
         'coefficient tensors over {0, +-1, 1/2, -5/4, 2, ...}: dense, sparse, single entry, symmetric / hermitian-structured, zero-padded last orbital, one-body only, '
         'two-body only, all ones, all zero; complex tensors by linearity (chain lists and explicit graphs are value-independent in structure, affine in the coefficients). '
         'non-trivial = constructor returns an MPO; distinct = distinct (model, optimize, L, tensor kind, bond dimensions, #nodes, #edges)')
@@ -167,17 +167,16 @@ def complex_case(c, rng, model, L, optimize):
 def plan(tier):
     """(model, optimize, L, repetitions)"""
     th = tier == 'thorough'
+    k = 4 if th else 1
     out = []
+    for L in range(1, 9):
+        out.append(('mol', True, L, k * (40 if L <= 4 else (24 if L <= 6 else 3))))
+    for L in range(0, 9):
+        out.append(('mol', False, L, k * (32 if L <= 5 else (20 if L == 6 else 3)) if L >= 4 else 1))
     for L in range(1, 7):
-        out.append(('mol', True, L, 10 if L <= 4 else 6))
-    for L in range(0, 7):
-        out.append(('mol', False, L, (8 if L <= 5 else 5) if L >= 4 else 1))
-    for L in range(1, 6 if th else 5):
-        out.append(('spinmol', True, L, 8 if L <= 3 else (5 if L == 4 else 2)))
-    for L in range(1, 6 if th else 5):
-        out.append(('spinmol', False, L, (8 if L <= 3 else (5 if L == 4 else 2)) if L >= 2 else 1))
-    if th:
-        out = [(m, o, L, 4 * r) for m, o, L, r in out]
+        out.append(('spinmol', True, L, k * (32 if L <= 3 else (20 if L == 4 else (2 if L == 5 else 1)))))
+    for L in range(1, 7):
+        out.append(('spinmol', False, L, k * (32 if L <= 3 else (20 if L == 4 else (3 if L == 5 else 1))) if L >= 2 else 1))
     return out
 
 
